@@ -112,6 +112,10 @@ Datum1 == {RecAll,
            [k |-> "list", items |-> <<Lit(1), PN, Prop(Source, "f1")>>],
            [k |-> "list", items |-> <<>>],
            [k |-> "map", pairs |-> <<[a |-> Lit(1), b |-> PB], [a |-> Lit(2), b |-> Hex(<<7>>)]>>],
+           \* a map is written as the list of its pairs: keys that turn out equal once the arguments are known (the same
+           \* parameter twice, a parameter and the literal it is given, two sums) still make two pairs, in the order written
+           [k |-> "map", pairs |-> <<[a |-> PN, b |-> Hex(<<1>>)], [a |-> PN, b |-> Hex(<<2>>)]>>],
+           [k |-> "map", pairs |-> <<[a |-> Op("add", PN, Lit(1)), b |-> PB], [a |-> Lit(9), b |-> Hex(<<3>>)], [a |-> Op("add", Lit(1), PN), b |-> Hex(<<4>>)]>>],
            [k |-> "bool", flag |-> TRUE], [k |-> "bool", flag |-> FALSE],
            [k |-> "index", a |-> [k |-> "list", items |-> <<Lit(5), PN>>], i |-> Lit(1)]}
 DatumNoSrc == {RecAll, CtorE("Rec", "", <<F("f2", PB), F("f1", L1)>>, Absent),
